@@ -254,6 +254,10 @@ func RunBatch(env *Env, workdir string, jobs []*Job) (map[string]map[string]*VRe
 				// load check only: run the file with empty stdin
 				args := append(append([]string{}, env.NodeFlags...), r.OutPath)
 				rr := Run(60*time.Second, tsdir, []byte("[]"), env.Node, args...)
+				for try := 0; try < 2 && (rr.TimedOut || (rr.Exit != 0 && strings.TrimSpace(rr.Stderr+rr.Stdout) == "")); try++ {
+					// no diagnostic about the file: the machine (overload, killed), once more with more time
+					rr = Run(180*time.Second, tsdir, []byte("[]"), env.Node, args...)
+				}
 				r.Built = rr.Exit == 0 && !rr.TimedOut
 				if !r.Built {
 					r.BuildErr = clip(rr.Stderr+rr.Stdout, 3000)
